@@ -54,6 +54,12 @@ class Lift(ast.NodeTransformer):
             if _isinstance(node.ops[0], ast.NotIn):
                 call = ast.Call(ast.Name("__sym_not__", ast.Load()), [call], [])
             return ast.copy_location(call, node)
+        if len(node.ops) == 1 and _isinstance(node.ops[0], (ast.In, ast.NotIn)):
+            # general membership: dispatched at run time (plain `in` unless the left operand is a proxy)
+            call = ast.Call(ast.Name("__sym_in2__", ast.Load()), [node.left, node.comparators[0]], [])
+            if _isinstance(node.ops[0], ast.NotIn):
+                call = ast.Call(ast.Name("__sym_not__", ast.Load()), [call], [])
+            return ast.copy_location(call, node)
         return node
 
     def visit_Call(self, node):
@@ -407,7 +413,19 @@ def sym_contains(const, x):
     return x in const
 
 
+def sym_in2(x, container):
+    if _isinstance(x, (SymText, SymInt)):
+        if _isinstance(container, (str, bytes)):
+            return sym_contains(container, x)
+        if _isinstance(container, (list, tuple)) and not _isinstance(container, text.SymTable):
+            return sym_in(x, tuple(container))
+        if _isinstance(container, (set, frozenset)):
+            return sym_in(x, tuple(container))
+    return x in container
+
+
 HELPERS = {
+    "__sym_in2__": sym_in2,
     "__sym_contains__": sym_contains,
     "__sym_format__": sym_format,
     "__sym_join__": text.sym_join,
